@@ -221,44 +221,51 @@ func Replay(i int, raw []byte) child.Result {
 			continue
 		}
 		exp := sc.Anc[c-1]
-		seq, exceeded, err := h.Walk([]int{c}, walkLimit(n))
-		kind := ""
-		switch {
-		case err != nil:
-			kind = "error"
-		case exceeded:
-			kind = "endless"
-		default:
-			count := map[int]int{}
-			for _, v := range seq {
-				count[v]++
-			}
-			for _, v := range seq {
-				if !contains(exp, v) {
-					kind = "foreign"
+		for mode := 0; mode < 2; mode++ {
+			h.InsertSeeded = mode == 1
+			seq, exceeded, err := h.Walk([]int{c}, walkLimit(n))
+			h.InsertSeeded = false
+			kind := ""
+			switch {
+			case err != nil:
+				kind = "error"
+			case exceeded:
+				kind = "endless"
+			default:
+				count := map[int]int{}
+				for _, v := range seq {
+					count[v]++
 				}
-			}
-			if kind == "" {
-				for _, v := range exp {
-					if count[v] > 1 {
-						kind = "duplicate"
+				for _, v := range seq {
+					if !contains(exp, v) {
+						kind = "foreign"
+					}
+				}
+				if kind == "" {
+					for _, v := range exp {
+						if count[v] > 1 {
+							kind = "duplicate"
+						}
+					}
+				}
+				if kind == "" {
+					for _, v := range exp {
+						if count[v] == 0 {
+							kind = "missing"
+						}
 					}
 				}
 			}
-			if kind == "" {
-				for _, v := range exp {
-					if count[v] == 0 {
-						kind = "missing"
-					}
+			if kind != "" {
+				obs := interface{}(seq)
+				if err != nil {
+					obs = err.Error()
 				}
+				if mode == 1 {
+					kind += "/insert-seeded"
+				}
+				col.add(Mismatch{Sig: "graph/walk/" + kind + "/clock=" + clock, Op: "walk", Args: []int{c}, Expected: exp, Observed: obs})
 			}
-		}
-		if kind != "" {
-			obs := interface{}(seq)
-			if err != nil {
-				obs = err.Error()
-			}
-			col.add(Mismatch{Sig: "graph/walk/" + kind + "/clock=" + clock, Op: "walk", Args: []int{c}, Expected: exp, Observed: obs})
 		}
 	}
 
